@@ -3,6 +3,7 @@
 Decides structural necessary conditions only: every way an old subtree or cached token can enter
 the new parse is dominated by all the checks the design relies on.
 """
+import re
 from common import *  # noqa: F401,F403
 
 
@@ -267,6 +268,117 @@ def rules_gate_state(ctx, F):
                 ctx.bad("P5", "set_cached_token:%s" % f, "ts_parser__set_cached_token no longer stores %s" % f)
 
 
+SENTINELS = (4294967295,)
+
+
+def pure_fn(F, name, depth=0, _memo={}):
+    """No stores except to its own locals and only calls to pure functions (getters)."""
+    key = (id(F), name)
+    if key in _memo:
+        return _memo[key]
+    fn = F.fns.get(name)
+    ok = fn is not None and depth < 4
+    if ok:
+        _memo[key] = True     # recursion guard
+        for pt, e in fn.points():
+            for n in walk(e):
+                k = n.get("k")
+                if k == "assign" and strip(n["l"]).get("k") != "ref":
+                    ok = False
+                elif k in ("inc", "dec", "pre", "post") and strip(n.get("e") or {}).get("k") != "ref":
+                    ok = False
+                elif k == "call" and not pure_fn(F, callee_name(n) or "", depth + 1):
+                    ok = False
+    _memo[key] = ok
+    return ok
+
+
+class SaturationMonitor(Monitor):
+    """A local that was set to the saturating sentinel (UINT32_MAX) on this path must not be an
+    operand of an addition: it wraps to a small number and every `<`-style range test built on the
+    sum silently passes.  Paths are pruned with the outcomes of pure conditions tested earlier."""
+
+    def __init__(self, fn, F):
+        self.fn, self.F = fn, F
+
+    def _pure(self, cond):
+        for n in walk(cond):
+            if n.get("k") == "call" and not pure_fn(self.F, callee_name(n) or ""):
+                return False
+            if n.get("k") in ("assign", "inc", "dec"):
+                return False
+        return True
+
+    def elem(self, m, pt, e, s):
+        sat, facts = m
+        for n in own_walk(e):
+            if n.get("k") == "bin" and n.get("op") in ("+",):
+                for side in ("l", "r"):
+                    o = strip(n[side])
+                    if o.get("k") == "ref" and o.get("id") in sat:
+                        other = strip(n["r" if side == "l" else "l"])
+                        if not (other.get("k") == "int" and not other.get("v")):
+                            return Viol("`%s` holds the saturating sentinel UINT32_MAX on this path and is added to `%s`: the sum wraps around" % (o["name"], show(other)[:50]), pt)
+        for n in own_walk(e):
+            if n.get("k") == "assign" and n.get("op") == "+=" and strip(n["l"]).get("k") == "ref" and strip(n["l"]).get("id") in sat:
+                return Viol("`%s` holds the saturating sentinel UINT32_MAX on this path and is incremented by `%s`: it wraps around" % (strip(n["l"])["name"], show(n["r"])[:50]), pt)
+        for n in own_walk(e):
+            tgt = val = None
+            if n.get("k") == "assign" and strip(n["l"]).get("k") == "ref":
+                tgt, val = strip(n["l"]), strip(n["r"])
+                if n.get("op") not in (None, "="):
+                    val = {}
+            elif n.get("k") == "decl" and n is e:
+                tgt, val = {"id": n.get("id"), "name": n.get("name")}, strip(n.get("init") or {})
+            if tgt is not None and tgt.get("id") is not None:
+                if val.get("k") == "int" and val.get("v") in SENTINELS:
+                    sat = sat | {tgt["id"]}
+                else:
+                    sat = sat - {tgt["id"]}
+                nm = tgt.get("name") or ""
+                facts = frozenset(f for f in facts if not re.search(r"\b%s\b" % re.escape(nm), f[0]))
+        return (sat, facts)
+
+    def edge(self, m, bid, edge, cond, truth, s):
+        if cond is None or truth is None:
+            return m
+        sat, facts = m
+        c = strip(cond)
+        while c.get("k") == "un" and c.get("op") == "!":
+            c, truth = strip(c["e"]), not truth
+        txt = show(c)
+        if (txt, not truth) in facts:
+            return PRUNE
+        if self._pure(c):
+            facts = facts | {(txt, truth)}
+        return (sat, facts)
+
+
+def rule_saturation(ctx, F):
+    n = 0
+    for fn in F.fn_list:
+        if not fn.file.startswith("lib/src"):
+            continue
+        has = False
+        for pt, e in fn.points():
+            for x in own_walk(e):
+                if x.get("k") == "assign" and strip(x["l"]).get("k") == "ref" and strip(x["r"]).get("k") == "int" and strip(x["r"]).get("v") in SENTINELS:
+                    has = True
+                elif x.get("k") == "decl" and x is e and strip(x.get("init") or {}).get("k") == "int" and strip(x["init"]).get("v") in SENTINELS:
+                    has = True
+        if not has:
+            continue
+        n += 1
+        srch = Search(fn, SaturationMonitor(fn, F), budget=2000000)
+        v = srch.run((frozenset(), frozenset()))
+        key = "%s:saturated-local-not-added" % fn.name
+        if v is None:
+            ctx.ok("P6", key, "no path adds to a local while it holds UINT32_MAX (%d states)" % srch.states, sample={"function": fn.name})
+        else:
+            ctx.bad("P6", key, "%s: %s (%s)" % (fn.name, v.msg, fn.loc(v.pt)), {"site": fn.loc(v.pt), "path": srch.render_path(v.path)[-6:]})
+    ctx.floor("functions with a local saturated to UINT32_MAX", n, 5)
+
+
 def run(ctx):
     for cfg in configs(ctx):
         ctx.config = cfg
@@ -275,6 +387,7 @@ def run(ctx):
         rules_c(ctx, F)
         rules_pairing(ctx, F)
         rules_gate_state(ctx, F)
+        rule_saturation(ctx, F)
     import rsrules
     rsrules.c01_rust(ctx)
     return ctx.finish(
